@@ -31,7 +31,7 @@
     groups (K2). (The target — derivation — mode of the reference matcher used by C02 is proved in PC02.) Covered on every
     run: the implementation's verdict is compared with [r_match] on every claimed case. *)
 From MowCli Require Import Base Parser Nfa Matchers Apply Values Flow Cmd RefSem ApplyProofs TermProofs NfaProofs CompleteProofs PrepareProofs ThompsonProofs StructProofs.
-From MowCli Require Import Lexer View SymProofs RefProofs.
+From MowCli Require Import Lexer View SymProofs RefProofs IdealProofs.
 
 Theorem C01_accepts_only_accepting_runs :
   forall D g start args bs,
@@ -146,6 +146,27 @@ Theorem C01_accepts_iff_reference_says_yes :
      r_match (View.rdecl_of (optinfo_of opts)) (Greedy true) (length opts) e a None = Yes).
 Proof. exact accepts_iff_reference. Qed.
 
+(** The direction of the property that holds without reservation: whatever a compiled command accepts is a sentence
+    of the DOCUMENTED language, in which an option group takes "its listed options in any order" — any non-empty
+    sequence of occurrences of listed options from the leading run, not necessarily all of them ([VAcceptsIdeal]).
+    The implementation's greedy reading is one of the ideal readings ([C01_greedy_readings_are_ideal_readings]), with
+    the same bindings. The converse is the known finding K2 ([C01_k2_is_an_ideal_sentence_that_is_rejected]). *)
+Theorem C01_greedy_readings_are_ideal_readings :
+  forall D nopts e c bs, VAccepts D nopts e c bs -> VAcceptsIdeal D nopts e c bs.
+Proof. exact accepts_is_ideal. Qed.
+
+Theorem C01_accepted_lines_are_sentences_of_the_documented_language :
+  forall opts args spec i toks e a u bs,
+    compile opts args spec = IOk i ->
+    tokenize spec = LexOk toks ->
+    parse_tokens (lookup_name opts) (lookup_name args) (length spec) toks = ParseOk e ->
+    seq_has_dd e = false -> sane (optinfo_of opts) = true -> view (optinfo_of opts) a = Some u ->
+    fsm_apply (optinfo_of opts) (i_graph i) (i_start i) a = AOk bs ->
+    VAcceptsIdeal (optinfo_of opts) (length opts) e (u, false) bs.
+Proof. exact accepted_lines_are_ideal_sentences. Qed.
+
+Print Assumptions C01_greedy_readings_are_ideal_readings.
+Print Assumptions C01_accepted_lines_are_sentences_of_the_documented_language.
 Print Assumptions C01_reference_matcher_decides.
 Print Assumptions C01_accepts_iff_reference_says_yes.
 Print Assumptions C01_matcher_steps_are_symbol_steps.
@@ -206,3 +227,14 @@ Example C01_structural_nonvacuous :
   | inr _ => false
   end = true.
 Proof. vm_compute. reflexivity. Qed.
+
+(** K2 at the symbol level, both halves proved: for the spec "-ab -a" and two occurrences of -a, the documented
+    language has a reading (the group takes the first occurrence, the single option the second) and the greedy
+    language has none *)
+Example C01_k2_is_an_ideal_sentence_that_is_rejected :
+  let D := mkOI (fun _ => None) (fun _ => true) (fun _ => false) in
+  let e := SCons (COne (RAtom (AGroup [0; 1]) false)) (SCons (COne (RAtom (AOpt 0) false)) SNil) in
+  let u := [VO 0 (lit "true"); VO 0 (lit "true")] in
+  VAcceptsIdeal D 2 e (u, false) [(KO 0, lit "true"); (KO 0, lit "true")] /\
+  ~ exists bs, VAccepts D 2 e (u, false) bs.
+Proof. exact ideal_k2_witness. Qed.
